@@ -625,7 +625,7 @@ class FmtGen:
             for t1 in tails:
                 for t2 in tails:
                     out.append(("sweep-row-tails", h + "\n" + (r1 % t1) + "\n" + (r2 % t2) + "\n"))
-        return out + sweep_bodies()
+        return out + sweep_bodies() + sweep_token_text()
 
 
 # ---------------------------------------------------------------------------
@@ -708,4 +708,42 @@ def sweep_bodies():
             add("sweep-body-nested", ["struct Outer:", "  0 [+1]  UInt  sel", "  if sel == 1:", "    1 [+8]  struct mid:"] + _ind(h, 6)
                 + ["      if true:"] + fields("struct", fb, [], fb, 8) + ["      3 [+1]  bits:"] + _ind([x for x in h if x != _DOC and x != ""], 8)
                 + fields("bits", fb, [], [], 8))
+    return out
+
+
+# ---------------------------------------------------------------------------
+# C11: token TEXT must survive formatting exactly (modulo the strip at the ends): string constants
+# (attribute values at every scope, import file names), documentation and comments with interior
+# runs of blanks, tabs, escapes, unusual blanks and non-ASCII characters (seed independent)
+# ---------------------------------------------------------------------------
+
+INTERIORS = ["a  b", "a\tb", "a \t b", "kCamelCase,  SHOUTY_CASE", "a   b   c", "  lead", "trail  ", "\t", " ",
+             "x\\\"y", "x\\\\y", "x\\ny", "x \\\"  \\\\  \\n y", "a b", "a　 b", "é日本  \U0001f600", ""]
+
+
+def sweep_token_text():
+    out = []
+
+    def add(lines):
+        out.append(("sweep-token-text", "\n".join(lines) + "\n"))
+    for s in INTERIORS:
+        q = '"%s"' % s
+        plain = s.replace("\\\"", "'").replace("\\\\", "/").replace("\\n", " n ")   # for docs / comments
+        # string constants: attribute values at every scope, import names
+        add(['[$default byte_order: %s]' % q, '[(cpp) namespace: %s]' % q, "struct Foo:", "  [text_output: %s]" % q,
+             "  0 [+1]  UInt  a", "    [text_output: %s]" % q, "  1 [+1]  bits:", "    [text_output: %s]" % q, "    0 [+1]  Flag  f",
+             "      [(cpp) name: %s]" % q])
+        add(["enum Kind:", "  [enum_case: %s]" % q, "  AA = 1  [(cpp) enum_case: %s]" % q, "  BB = 2", "    [enum_case: %s]" % q])
+        add(["external Ext:", "  [(cpp) type: %s]" % q, "bits Bar:", "  [x: %s]  # c  %s" % (q, plain), "  0 [+1]  Flag  a"])
+        add(['import %s as imp' % q, 'import %s as imp2  # c\t%s' % (q, plain), "struct Foo:", "  0 [+1]  UInt  a"])
+        add(["struct Foo:", "  0 [+4]  struct inner:", "    [a: %s]" % q, "    0 [+1]  UInt  x", "      [b: %s]" % q, "  if true:",
+             "    4 [+1]  enum kind:", "      [c: %s]" % q, "      AA = 0"])
+        # documentation and comments with the same interiors
+        add(["# top %s end" % plain, "-- module %s doc" % plain, "struct Foo:  # h %s h" % plain, "  -- type %s doc" % plain,
+             "  0 [+1]  UInt  a  -- inline %s doc" % plain, "    -- field %s doc" % plain, "  1 [+1]  UInt  bb  # tail %s c" % plain,
+             "  # standalone %s c" % plain])
+        add(["enum Kind:  # h %s" % plain, "  -- %s" % plain, "  AA = 1  -- v %s doc" % plain, "    -- body %s doc" % plain,
+             "  BB = 2  # c %s c" % plain])
+        add(["struct Foo:", "\t0 [+1]  UInt  a\t-- tab\t%s\tdoc" % plain, "\t1 [+1]  UInt  b\t#\ttab\t%s\tcomment" % plain,
+             "\tlet c = 1\t# %s" % plain])
     return out
